@@ -2,6 +2,7 @@ package main
 
 import (
 	"fmt"
+	"os"
 	"go/types"
 	"runtime/debug"
 	"sort"
@@ -153,6 +154,9 @@ func (E *Engine) VerifyFunc(name string) (rep FuncReport) {
 	rnames := resultNames(fn)
 	E.Run(m, func(pe pathEnd) {
 		rep.Paths++
+		if os.Getenv("GVC_TRACE") != "" {
+			fmt.Fprintf(os.Stderr, "PATH END %s panic=%v: %s\n", name, pe.Panic, strings.Join(pe.M.Trace, " "))
+		}
 		if pe.Panic {
 			if len(c.Sweep) > 0 {
 				E.addObl(pe.M, &Obligation{Name: name + ":safe:panic", Func: name, Kind: "safe", Props: c.Sweep, Reading: ReadE, Goal: False, Src: pe.Reason})
@@ -336,7 +340,17 @@ func allProps(c *Contract) []string {
 func (E *Engine) buildQuery(r Reading, hyps []*Term, goal *Term) string {
 	var b strings.Builder
 	b.WriteString(Prelude(r))
-	b.WriteString(E.D.Dump())
+	if os.Getenv("GVC_ALLAXIOMS") != "" {
+		b.WriteString(E.D.Dump())
+	} else {
+		var tb strings.Builder
+		for _, h := range hyps {
+			tb.WriteString(h.S)
+			tb.WriteByte(' ')
+		}
+		tb.WriteString(goal.S)
+		b.WriteString(E.D.DumpFor(tb.String()))
+	}
 	for _, h := range hyps {
 		b.WriteString("(assert ")
 		b.WriteString(h.S)
